@@ -49,6 +49,7 @@ IDENTITIES = {
     "name253": (".".join([L63, "b" * 63, "c" * 63, "d" * 61]), ".".join([L63, "b" * 63, "c" * 63, "d" * 61]), "dns-long"),
     "idn": ("münchen.example", "xn--mnchen-3ya.example", "idn"),
     "underscore": ("my_host._tcp.example.com", "my_host._tcp.example.com", "underscore"),
+    "deep": ("a.b.example.com", "a.b.example.com", "dns-deep"),
     "ipv4-local": ("192.0.2.2", None, "ipv4"),
     "ipv6-local": ("2001:db8::2", None, "ipv6"),
     # IP literal *in the SNI* (clients that copy the URL host into server_name); the proxy's local address and the
@@ -76,6 +77,10 @@ UPSTREAMS = {
     "ip-san": dict(cn="upstream.example", sans=["ip:203.0.113.5", "ip:2001:db8::5"]),
     "cn-is-ip": dict(cn="203.0.113.9"),
     "wildcard": dict(cn="*.upstream.example", sans=["dns:*.upstream.example", "dns:upstream.example"]),
+    # upstream wildcards in the SNI's own domain: zero, one or two labels above the identities *.example.com / a.b.example.com / my_host._tcp.example.com
+    "wildcard-b.example.com": dict(cn="*.b.example.com", sans=["dns:*.b.example.com", "dns:b.example.com"]),
+    "wildcard-example.com": dict(cn="*.example.com", sans=["dns:*.example.com", "dns:example.com"]),
+    "wildcard-com": dict(cn="example.com", sans=["dns:example.com", "dns:*.com"]),
     "cn64": dict(cn="a" * 60 + ".com", sans=["dns:upstream.example"]),
     "cn-label64": dict(cn="a" * 64),
     "cn-nonascii": dict(cn="Müller Maschinenbau", sans=["dns:upstream.example"]),
@@ -294,7 +299,10 @@ def run_case(c, t: Tally, verbose=False):
     t.judge("names_subset", not extra, f, c, "every CN/SAN taken from SNI-or-local-address, server address, upstream certificate", {"foreign_names": extra[:5]})
     # the identity itself must be named (SAN), otherwise `verifies` could only hold by accident
     ident_key = host_key(sni if sni is not None else hostname)
-    t.judge("names_the_identity", any(kind == "san" and k == ident_key for kind, _, k in cert_names(cert)), f, c, "SAN contains the requested identity", obs["names"])
+    covering = {ident_key}
+    if ident_key[0] == "dns" and "." in ident_key[1]:
+        covering.add(("dns", "*." + ident_key[1].split(".", 1)[1]))  # a whole-label wildcard exactly one level up names it too
+    t.judge("names_the_identity", any(kind == "san" and k in covering for kind, _, k in cert_names(cert)), f, c, "a SAN names the requested identity (exactly, or by a wildcard one label up)", obs["names"])
 
 
 def chunk_fn(chunk):
